@@ -17,6 +17,12 @@
   delivered, once, in order, attributed to a packet that carried them), `reasm_reorder_run`, and
   `reasm_single_conversation_partial` — an instance of `ReasmRecovers` for a wire holding one conversation
   (handshake + arbitrarily disturbed data in both directions).
+  Pk/Props/C05More.lean completes it inside one inactivity window: teardown (`reasm_teardown`,
+  `reasm_teardown_frozen`), flow locality for any number of interleaved TCP/UDP conversations
+  (`reasm_flow_local`), `reasmRecovers_wellformed` (an instance of `ReasmRecovers` with a concrete `WireTruth`),
+  UDP flows across the timeout (`reasm_udp_across_timeout`); flow locality ACROSS the timeout and
+  `prefix_stable` are false of the reference (`flow_local_false_across_timeout`, `prefix_stable_false` — the
+  mechanism of the known finding F34).
 -/
 import Pk.Model.Import
 import Pk.Proofs.Import
